@@ -1084,6 +1084,11 @@ func (c *SpecCtx) evalCall(x *ast.CallExpr) *SV {
 		t := c.resolveType(x.Args[0])
 		a := c.eval(x.Args[1])
 		return &SV{V: scalar(ex.valTerm(a.V)), T: t}
+	case "boxedString":
+		// boxedString(x): the string boxed in the interface value x (meaningful if typeIs(x, string))
+		a := c.eval(x.Args[0])
+		f := ex.env.d.Func(symSafe("unbox "+ex.env.typeKey(types.Typ[types.String])+" "), ex.strSort(), SRef)
+		return &SV{V: scalar(App(f.Name, ex.strSort(), ex.valTerm(a.V))), T: types.Typ[types.String]}
 	case "boxedBytes":
 		// boxedBytes(x): the storage array of the []byte value boxed in the interface value x (meaningful if typeIs(x, []byte))
 		a := c.eval(x.Args[0])
